@@ -154,6 +154,9 @@ class Ctx:
         e.update(env or {})
         cmd = self._tlc_cmd(module + '.tla', os.path.join(SPEC, cfg), workers, metadir, xmx=xmx, extra=extra)
         t0 = time.time()
+        # the timeout only guards against a genuine hang: models that take seconds on an idle machine were seen to take
+        # more than ten minutes at load average 150, and a timeout is a machinery failure (exit 2), so keep it generous
+        timeout = max(int(timeout), int(os.environ.get('VERIF_TLC_TIMEOUT_FLOOR', '2700')))
         try:
             p = subprocess.run(cmd, cwd=SPEC, env=e, capture_output=True, text=True, timeout=timeout)
         except subprocess.TimeoutExpired:
